@@ -1986,9 +1986,7 @@ class Assign(Elemwise):
         return {
             col
             for col in self.frame.unique_partition_mapping_columns_from_shuffle
-            if not isinstance(col, tuple)
-            and col not in keys
-            or not set(col).intersection(keys)
+            if not (set(col) if isinstance(col, tuple) else {col}).intersection(keys)
         }
 
     @functools.cached_property
